@@ -241,7 +241,7 @@ theorem guards_FindFirmwareVolumeOffset : Gen.UefiTotalGuards.guards_FindFirmwar
 theorem guards_NewFirmwareVolume : Gen.UefiTotalGuards.guards_NewFirmwareVolume =
     ["if len(_) < FirmwareVolumeMinSize", "if _ != nil", "for", "if _+8 > _.Length", "if _ != nil",
      "if _.Count == 0 && _.Size == 0", "if _ != nil", "if _.Length > uint64(len(_))",
-     "if _.ExtHeaderOffset != 0 && _.Length >= FirmwareVolumeExtHeaderMinSize && uint64(_.ExtHeaderOffset) < _.Length-FirmwareVolumeExtHeaderMinSize",
+     "if _.ExtHeaderOffset != 0 && _.Length >= FirmwareVolumeExtHeaderMinSize && uint64(_.ExtHeaderOffset) <= _.Length-FirmwareVolumeExtHeaderMinSize",
      "if _ != nil", "if ReadOnly", "if !_", "for _ <= _", "if uint64(len(_)) <= _", "if _ != nil",
      "if _ == nil", "if _ == 0"] := rfl
 
